@@ -179,6 +179,7 @@ class Recorder:
         self.items = []           # finished items: dict(events, snaps, ...)
         self.cur = None
         self.loose = []           # events outside any item (must contain no write)
+        self.unrecognised = []    # statements that are neither SELECT/PRAGMA nor INSERT/UPDATE/DELETE on a known table
         ds = eng.engine._data_store
         self._ls = [(ds, 'before_cursor_execute', self._before), (ds, 'after_cursor_execute', self._after),
                     (ds, 'commit', self._commit), (ds, 'rollback', self._rollback),
@@ -247,7 +248,13 @@ class Recorder:
             return
         m = STMT_RE.match(s)
         if not m or m.group(2) not in TABLES:
-            raise RuntimeError('C09 recorder: unrecognised statement (fail closed): %r' % s[:120])
+            # never raise inside the engine (a handler may swallow the exception and behave differently): the statement is
+            # recorded, cuts are taken around it like around any other, and the item is reported afterwards (fail closed there)
+            self._pending = ('other', s[:120])
+            self.unrecognised.append(s[:120])
+            if self.cur is not None:
+                self.cur['snaps'].append((len(self.cur['events']), 'before-statement', self.snap('before-statement')))
+            return
         n = len(parameters) if isinstance(parameters, list) else 1
         plist = parameters if isinstance(parameters, list) else [parameters]
         self._pending = (KIND[m.group(1).upper()], m.group(2), n, [tuple(p) if isinstance(p, (tuple, list)) else p for p in plist])
@@ -259,6 +266,11 @@ class Recorder:
         if p is None:
             return
         self._pending = None
+        if p[0] == 'other':
+            (self.cur['events'] if self.cur is not None else self.loose).append(('S', p[1]))
+            if self.cur is not None:
+                self.cur['snaps'].append((len(self.cur['events']), 'after-statement (%s)' % p[1].split()[0], self.snap('after-statement')))
+            return
         kind, table, n, plist = p
         for i in range(n):
             e = ('W', kind, table, plist[i] if i < len(plist) else None)
@@ -767,6 +779,10 @@ def run_history(ctx, name, n_steps, rng, snapshots=True, link_attrs=True, script
             r = eng.request(items, version=version, user='alice')
             ack_snap = rec.snap('ack')
             recorded = rec.items[first:]
+            if rec.unrecognised:
+                ctx.disagreement('statements', {'history': name, 'step': step, 'unrecognised_statements': rec.unrecognised[:5],
+                                                'problem': 'statements the transaction model has no event for (fail closed)'})
+                del rec.unrecognised[:]
             if rec.loose and any(e[0] == 'W' for e in rec.loose):
                 ctx.violation({'class': 'write-outside-operation'}, {'history': step_log, 'events': repr(rec.loose)},
                               'a database write happened outside the processing of any batch item')
@@ -1549,6 +1565,152 @@ def restart_fidelity(ctx, name, rng, scripted):
         eng.close()
 
 
+# ---------------------------------------------------------------------------------- faults during the restart itself
+def startup_static(ctx):
+    """ast: nothing reachable from KmipEngine.__init__ renames, removes or recreates files (the store is only ever opened)."""
+    import ast
+    problems = []
+    tree = ast.parse((ctx.repo / 'kmip/services/server/engine.py').read_text())
+    cls = [n for n in tree.body if isinstance(n, ast.ClassDef) and n.name == 'KmipEngine']
+    if not cls:
+        return ['class KmipEngine not found']
+    methods = {n.name: n for n in cls[0].body if isinstance(n, ast.FunctionDef)}
+    seen, todo = set(), ['__init__']
+    FILE_CALLS = {('os', 'rename'), ('os', 'remove'), ('os', 'unlink'), ('os', 'replace'), ('os', 'renames'), ('os', 'rmdir'),
+                  ('os', 'truncate'), ('shutil', None)}
+    while todo:
+        m = todo.pop()
+        if m in seen or m not in methods:
+            continue
+        seen.add(m)
+        for n in ast.walk(methods[m]):
+            if isinstance(n, ast.Call) and isinstance(n.func, ast.Attribute) and isinstance(n.func.value, ast.Name):
+                mod, fn = n.func.value.id, n.func.attr
+                if n.func.value.id == 'self':
+                    todo.append(fn)
+                elif (mod, fn) in FILE_CALLS or (mod, None) in FILE_CALLS:
+                    problems.append('KmipEngine.%s (reachable from __init__) calls %s.%s: start-up must never rename, remove or '
+                                    'recreate the store' % (m, mod, fn))
+            if isinstance(n, ast.Call) and isinstance(n.func, ast.Name) and n.func.id == 'open':
+                problems.append('KmipEngine.%s (reachable from __init__) opens a file itself' % m)
+    return problems
+
+
+def restart_faults(ctx):
+    """The restart itself under faults: (1) another process holds an EXCLUSIVE lock on the store for longer than the busy
+    timeout, (2) another process holds a RESERVED lock (a writer in progress), (3) a hot journal of a killed writer is
+    present.  Either the start-up fails cleanly and the NEXT restart (fault gone) shows the full acknowledged state, or it
+    succeeds with the full state; it never leaves other files behind, and identifiers acknowledged before are not issued
+    again.  The busy timeout of new connections is shortened to 80 ms by a SQLAlchemy `connect` listener for the duration."""
+    import sqlalchemy.engine
+    base = ctx.work / 'restartfault'
+    base.mkdir(parents=True, exist_ok=True)
+    eng = kdrv.Engine(path=str(base / 'store.db'))
+    hist = []
+    for k in range(4):
+        r = eng.request([kdrv.create(names=['key-%d' % k], extra=[kdrv.attr(AT.OBJECT_GROUP, 'grp', 0)] if k % 2 else [])])
+        hist.append(('Create key-%d' % k, r['items'][0]['status'], kdrv.first_uid(r['items'][0])))
+    eng.request([kdrv.activate('2')])
+    hist.append(('Activate 2', 'SUCCESS', '2'))
+    eng.request([kdrv.destroy('4')])
+    hist.append(('Destroy 4', 'SUCCESS', '4'))
+    listed0, before = read_everything(eng)
+    max_uid = eng.next_uid() - 1
+    eng.engine._data_store.dispose()
+    path = eng.path
+
+    def short_timeout(dbapi_connection, connection_record):
+        try:
+            dbapi_connection.execute('PRAGMA busy_timeout=80')
+        except Exception:
+            pass
+    sa_event.listen(sqlalchemy.engine.Engine, 'connect', short_timeout)
+
+    def files():
+        return sorted(f for f in os.listdir(str(base)) if not f.endswith('-journal'))
+
+    def try_start():
+        try:
+            e = kdrv.Engine(path=path)
+            return e, None
+        except Exception as ex:  # noqa
+            return None, '%s: %s' % (type(ex).__name__, str(ex)[:160])
+
+    def check_state(e, label, wit):
+        listed1, after = read_everything(e)
+        if listed1 != listed0 or after != before:
+            missing = [u for u in (listed0 or []) if u not in (listed1 or [])]
+            ctx.violation({'class': 'acknowledged-not-durable', 'op': 'restart', 'cut': label},
+                          dict(wit, listed_before=listed0, listed_after=listed1, missing=missing),
+                          'restart %s: the server comes up without what was acknowledged (objects listed %s -> %s)' % (label, listed0, listed1))
+            return False
+        r = e.request([kdrv.create(names=['after-' + label.split()[0]])])
+        u = kdrv.first_uid(r['items'][0]) if r['items'] and kdrv.ok(r['items'][0]) else None
+        if u is not None and int(u) <= max_uid_box[0]:
+            ctx.violation({'class': 'identifier-reissued', 'op': 'restart', 'cut': label}, dict(wit, issued=u, highest_acknowledged=max_uid_box[0]),
+                          'restart %s: the next Create is answered with the already acknowledged identifier %s' % (label, u))
+        if u is not None:
+            max_uid_box[0] = max(max_uid_box[0], int(u))
+            e.request([kdrv.destroy(u)])
+        return True
+
+    max_uid_box = [max_uid]
+    try:
+        for label in ('under an EXCLUSIVE lock held by another process', 'under a RESERVED lock held by another process',
+                      'with the hot journal of a killed writer'):
+            files0 = files()
+            blocker = None
+            pid = None
+            if 'EXCLUSIVE' in label or 'RESERVED' in label:
+                blocker = sqlite3.connect(path, isolation_level=None, timeout=0.05)
+                blocker.execute('BEGIN EXCLUSIVE' if 'EXCLUSIVE' in label else 'BEGIN IMMEDIATE')
+            else:
+                pid = os.fork()
+                if pid == 0:
+                    try:
+                        c = sqlite3.connect(path, isolation_level=None)
+                        c.execute('PRAGMA cache_size=1')
+                        c.execute('BEGIN')
+                        c.execute('UPDATE managed_objects SET value = randomblob(6000)')
+                        c.execute('UPDATE crypto_objects SET state = 6')
+                        c.execute('DELETE FROM managed_object_names')
+                    finally:
+                        os.kill(os.getpid(), signal.SIGKILL)
+                os.waitpid(pid, 0)
+                ctx.count('restart-fault.hot-journal-present', 1 if os.path.exists(path + '-journal') and os.path.getsize(path + '-journal') > 0 else 0)
+            wit = {'history': hist, 'fault': label, 'how': 'acknowledged state read through the live engine; engine disposed; new KmipEngine on the '
+                   'same file while %s; fault removed; new KmipEngine again; everything read again' % label}
+            e1, err1 = try_start()
+            ctx.count('restart-fault.%s.%s' % (label.split()[2] if label.startswith('under') else 'hot-journal', 'start-failed' if e1 is None else 'started'))
+            wit['first_start'] = err1 or 'started'
+            started_ok = None
+            if e1 is not None and blocker is None:
+                started_ok = check_state(e1, label, wit)
+            if blocker is not None:
+                blocker.rollback()
+                blocker.close()
+            if e1 is not None and blocker is not None:
+                started_ok = check_state(e1, label + ' (read after the lock was released)', wit)
+            if e1 is not None:
+                e1.engine._data_store.dispose()
+            files1 = files()
+            if files1 != files0:
+                ctx.violation({'class': 'store-moved-or-recreated', 'op': 'restart', 'cut': label}, dict(wit, files_before=files0, files_after=files1),
+                              'restart %s changed the files of the store: %s -> %s' % (label, files0, files1))
+            # the next restart, fault gone
+            e2, err2 = try_start()
+            wit['second_start'] = err2 or 'started'
+            if e2 is None:
+                ctx.violation({'class': 'unreadable-or-partial', 'op': 'restart', 'cut': label}, wit,
+                              'after a start-up %s the server cannot be started any more: %s' % (label, err2))
+            else:
+                check_state(e2, label + ', next restart', wit)
+                e2.engine._data_store.dispose()
+            ctx.case_seen(('restart-fault', label, err1 is None), nontrivial=True)
+    finally:
+        sa_event.remove(sqlalchemy.engine.Engine, 'connect', short_timeout)
+
+
 # ---------------------------------------------------------------------------------- check
 def run(ctx):
     quick = ctx.tier == 'quick'
@@ -1581,6 +1743,7 @@ def run(ctx):
     restart_fidelity(ctx, 'restart0', ctx.subrng('restart/0'), scripted=True)
     for k in range(1, 4 if quick else 16):
         restart_fidelity(ctx, 'restart%d' % k, ctx.subrng('restart/%d' % k), scripted=False)
+    restart_faults(ctx)
     n_hist, n_steps = (8, 30) if quick else (24, 50)
     c, m = run_history(ctx, 'hscript', 0, ctx.subrng('history/script'), scripted=True)
     cases += c
@@ -1606,6 +1769,9 @@ def run(ctx):
     for m, c in zip(meta, cases):
         if m['case'] in ('shape', 'killed-workload'):
             ctx.sample({'case': m, 'coq': c[:600]}, limit=4)
+    # static tie last, so that a concrete failing input (if any) heads the replay
+    for p in startup_static(ctx):
+        ctx.violation({'class': 'store-moved-or-recreated', 'op': 'restart', 'cut': 'static'}, {'finding': p, 'file': 'kmip/services/server/engine.py'}, p)
 
 
 def model_view(m):
